@@ -50,6 +50,13 @@ def set_shape(v: SVar, shape, dims=None):
     return v
 
 
+def compose_order(inner, outer):
+    """Element positions after applying `outer` to an array that already carries the order `inner` (None = natural order)."""
+    if inner is None:
+        return list(outer)
+    return [inner[k] for k in outer]
+
+
 def bshape(a, b):
     """numpy/scipp broadcasting of two known shapes (right aligned is enough here)."""
     if a is None or b is None:
@@ -209,6 +216,16 @@ class SqwModel(Model):
         elems = [e for r in rows for e in r.elems]
         return NdArr((sum(r.shape[0] for r in rows), *rows[0].shape[1:]), absio._common_dtype(rows), elems)
 
+    def x_numpy_atleast_2d(self, interp, args, kwargs, node):
+        a = to_ndarr(args[0]) if not isinstance(args[0], NdArr) else args[0]
+        if a.ndim >= 2:
+            return a
+        return a.reshape((1, a.size))
+
+    def x_numpy_atleast_1d(self, interp, args, kwargs, node):
+        a = to_ndarr(args[0]) if not isinstance(args[0], NdArr) else args[0]
+        return a if a.ndim >= 1 else a.reshape((1,))
+
     def x_numpy_ndim(self, interp, args, kwargs, node):
         x = args[0]
         if isinstance(x, NdArr):
@@ -318,6 +335,15 @@ class SqwModel(Model):
         w = a.as_whole()
         if w is not None:
             return w
+        pw = a.as_permuted_whole()
+        if pw is not None:
+            # the same numbers in another order (a transposed layout): the array, with the position of every element
+            base, order = pw
+            r = self.new(interp, base.term, base.unit, base.dtype, base.taint, base.why)
+            r.kind = base.kind
+            r.members.update({k: v for k, v in base.members.items() if k not in ('shape', 'dims', 'order')})
+            r.members['order'] = compose_order(base.members.get('order'), order)
+            return set_shape(r, a.shape)
         r = self.new(interp, None, None, a.dtype.name, why=f'array assembled from {a!r}')
         r.kind = 'raw'
         r.members['elems'] = a
@@ -357,6 +383,8 @@ class SqwModel(Model):
                     r.members['elems'] = arr
             except LayoutMismatch:
                 pass
+        if isinstance(vals, SVar) and vals.members.get('order') is not None:
+            r.members['order'] = list(vals.members['order'])
         if shape is None and isinstance(vals, SVar):
             shape = shape_of(vals)
             if 'concrete' in vals.members:
@@ -462,6 +490,9 @@ class SqwModel(Model):
                 set_shape(r, (3,) if v.dtype == 'vector3' and sh == () else sh)
                 if attr == 'value' and v.dtype != 'vector3':
                     return r
+                if v.members.get('order') is not None and attr == 'values':
+                    dt_ = r.dtype if r.dtype in absio.CODES else 'float64'
+                    return NdArr(shape_of(r), dt_, [absio.Elem(r, k) for k in v.members['order']])
                 return NdArr.whole(r, shape_of(r), r.dtype if r.dtype in absio.CODES else 'float64')
         if v.kind == 'raw' and attr in ('astype', 'squeeze', 'item', 'tobytes', 'tofile', 'reshape', 'copy', 'tolist') and sh is not None:
             return getattr(NdArr.whole(v, sh), attr)
@@ -505,6 +536,8 @@ class SqwModel(Model):
             sh, dims = shape_of(recv), recv.members.get('dims')
             if name in ('to', 'astype', 'copy'):
                 set_shape(r, sh, dims)
+                if recv.members.get('order') is not None:
+                    r.members['order'] = list(recv.members['order'])
                 c = recv.members.get('concrete')
                 if c is not None and (recv.unit == r.unit):
                     r.members['concrete'] = c
@@ -530,9 +563,21 @@ class SqwModel(Model):
                 nd = list(nd)
                 if sorted(nd) != sorted(dims):
                     raise RaiseSignal('DimensionError', node, interp.where(node), (f'transpose {dims} -> {nd}',))
+                new_sh = tuple(sh[dims.index(d)] for d in nd)
                 if [d for d in nd if sh[dims.index(d)] != 1] != [d for d, s in zip(dims, sh, strict=True) if s != 1]:
-                    raise AnalysisError(f'transpose that moves data is outside the modelled subset at {interp.where(node)}')
-                set_shape(r, tuple(sh[dims.index(d)] for d in nd), nd)
+                    # the data moves: position i of the result holds the element that sat at the transposed multi-index
+                    import itertools as _it
+                    strides, acc = [0] * len(sh), 1
+                    for ax in range(len(sh) - 1, -1, -1):
+                        strides[ax], acc = acc, acc * sh[ax]
+                    perm = []
+                    for idx in _it.product(*[range(n_) for n_ in new_sh]):
+                        old_flat = sum(idx[nd.index(d)] * strides[ax] for ax, d in enumerate(dims))
+                        perm.append(old_flat)
+                    r.members['order'] = compose_order(recv.members.get('order'), perm)
+                elif recv.members.get('order') is not None:
+                    r.members['order'] = list(recv.members['order'])
+                set_shape(r, new_sh, nd)
             elif name in ('squeeze', 'flatten', 'rename_dims', 'rename'):
                 pass
         return r
